@@ -5,7 +5,7 @@
 EXTENDS Integers
 
 \* C06: the device must not be changed
-Bad(p) == ~p.nameOK \/ p.marker = "absent" \/ p.ha \in {"passive", "suspended"}
+Bad(p) == ~p.nameOK \/ p.marker \in {"absent", "partial"} \/ p.ha \in {"passive", "suspended"}
 
 (* The properties, as predicates over (parameters, observed counters) so that the trace   *)
 (* specification can evaluate them on what the simulators recorded.                        *)
